@@ -933,6 +933,9 @@ def event_graph(fn, role_of, ret_local=0, max_states=40000, branch_role=None, st
                     kb = frozenset(x for x in kb if x[0] != ll)
                 if fn.local_ty(ll) == "bool" and s.rv.k == "use" and s.rv.ops[0].kind == "const" and isinstance(s.rv.ops[0].const_value(), bool) and ll not in mut_borrowed(fn) and ll != ret_local:
                     kb = kb | {(ll, s.rv.ops[0].const_value())}
+                # a scalar constant parked in an unnamed temporary (`tmp = 1; _0 = move tmp`): the value that is returned
+                elif fn.local_name(ll) is None and s.rv.k == "use" and s.rv.ops[0].kind == "const" and isinstance(s.rv.ops[0].const_value(), (int, str)) and not isinstance(s.rv.ops[0].const_value(), bool) and ll not in mut_borrowed(fn) and ll != ret_local:
+                    kb = kb | {(ll, ("cst", s.rv.ops[0].const_value()))}
                 # an enum value built from a literal variant: a later `discriminant(x)` on the same path is known
                 elif s.rv.k == "agg" and s.rv.j.get("ak") == "adt" and _STD_VARIANT.get((s.rv.j.get("adt"), s.rv.j.get("variant"))) is not None and ll not in mut_borrowed(fn):
                     kb = kb | {(ll, ("variant", _STD_VARIANT[(s.rv.j.get("adt"), s.rv.j.get("variant"))]))}
@@ -973,6 +976,8 @@ def event_graph(fn, role_of, ret_local=0, max_states=40000, branch_role=None, st
                                 retv = kv[1]
                             elif kl == src_local and isinstance(kv, bool):
                                 retv = "const:%s" % kv
+                            elif kl == src_local and isinstance(kv, tuple) and kv[0] == "cst":
+                                retv = "const:%s" % (kv[1],)
                 if is_alias or is_discr:
                     aliases.add(l)
                     srcl = src_local if is_alias and src_local is not None else (rv.place.local if is_discr else (rv.ops[0].place.local if rv.ops and rv.ops[0].place is not None else None))
